@@ -12,6 +12,20 @@ macro_rules! impl_encode_rr_domain_name {
     };
 }
 
+macro_rules! impl_encode_rr_domain_name_uncompressed {
+    ($i:ident, $n:ident, $m:ident) => {
+        pub(super) fn $m(&mut self, i: &crate::rr::$i) -> crate::EncodeResult<()> {
+            self.domain_name(&i.domain_name)?;
+            self.rr_type(&crate::rr::Type::$i);
+            self.rr_class(&i.class);
+            self.u32(i.ttl);
+            let length_index = self.create_length_index();
+            self.domain_name_uncompressed(&i.$n)?;
+            self.set_length_index(length_index)
+        }
+    };
+}
+
 macro_rules! impl_encode_rr_domain_name_domain_name {
     ($i:ident, $p:ident, $n:ident, $m:ident) => {
         pub(super) fn $m(&mut self, i: &crate::rr::$i) -> crate::EncodeResult<()> {
@@ -27,6 +41,21 @@ macro_rules! impl_encode_rr_domain_name_domain_name {
     };
 }
 
+macro_rules! impl_encode_rr_domain_name_domain_name_uncompressed {
+    ($i:ident, $p:ident, $n:ident, $m:ident) => {
+        pub(super) fn $m(&mut self, i: &crate::rr::$i) -> crate::EncodeResult<()> {
+            self.domain_name(&i.domain_name)?;
+            self.rr_type(&crate::rr::Type::$i);
+            self.rr_class(&i.class);
+            self.u32(i.ttl);
+            let length_index = self.create_length_index();
+            self.domain_name_uncompressed(&i.$p)?;
+            self.domain_name_uncompressed(&i.$n)?;
+            self.set_length_index(length_index)
+        }
+    };
+}
+
 macro_rules! impl_encode_rr_u16_domain_name {
     ($i:ident, $p:ident, $n:ident, $m:ident) => {
         pub(super) fn $m(&mut self, i: &crate::rr::$i) -> crate::EncodeResult<()> {
@@ -37,6 +66,21 @@ macro_rules! impl_encode_rr_u16_domain_name {
             let length_index = self.create_length_index();
             self.u16(i.$p);
             self.domain_name(&i.$n)?;
+            self.set_length_index(length_index)
+        }
+    };
+}
+
+macro_rules! impl_encode_rr_u16_domain_name_uncompressed {
+    ($i:ident, $p:ident, $n:ident, $m:ident) => {
+        pub(super) fn $m(&mut self, i: &crate::rr::$i) -> crate::EncodeResult<()> {
+            self.domain_name(&i.domain_name)?;
+            self.rr_type(&crate::rr::Type::$i);
+            self.rr_class(&i.class);
+            self.u32(i.ttl);
+            let length_index = self.create_length_index();
+            self.u16(i.$p);
+            self.domain_name_uncompressed(&i.$n)?;
             self.set_length_index(length_index)
         }
     };
